@@ -1,129 +1,13 @@
 package main
 
 import (
-	"crypto/sha256"
-	"fmt"
-	"os"
-	"os/exec"
-	"sort"
-	"strings"
-
+	"verif/harness/firstop"
 	"verif/harness/mon"
 )
 
-// Any exported computation as the FIRST operation of a process. Lazily initialised state (MiMC constants, Poseidon2
-// default parameters, twisted Edwards parameters, cached bases, pools) is filled by whichever call comes first, so
-// every entry point that needs it must trigger the initialisation itself. The parent computes each operation in a
-// warm process (every operation already executed once, in registry order) and starts one child per operation in
-// which that operation is the first thing the process does after package initialisation; the child repeats it once
-// more. All three values must be equal: the result of a call does not depend on the history of the process.
+// see package firstop
+func regLazy(name string, fn func() []byte) { firstop.Reg(name, fn) }
 
-type lazyOp struct {
-	name string
-	fn   func() []byte
-}
+func firstGenChild() { firstop.Child(*which) }
 
-var lazyOps []lazyOp
-
-func regLazy(name string, fn func() []byte) { lazyOps = append(lazyOps, lazyOp{name, fn}) }
-
-func sortedLazy() []lazyOp {
-	s := append([]lazyOp(nil), lazyOps...)
-	sort.Slice(s, func(i, j int) bool { return s[i].name < s[j].name })
-	return s
-}
-
-func digestOf(fn func() []byte) (d string) {
-	defer func() {
-		if r := recover(); r != nil {
-			d = fmt.Sprintf("panic: %.200v", r)
-		}
-	}()
-	h := sha256.Sum256(fn())
-	return fmt.Sprintf("%x", h[:12])
-}
-
-// firstGenChild: "GEN <index>|<name>|<first>|<second>"
-func firstGenChild() {
-	ops := sortedLazy()
-	k := *which
-	if k < 0 || k >= len(ops) {
-		fmt.Println("ERROR index out of range")
-		os.Exit(3)
-	}
-	a := digestOf(ops[k].fn)
-	b := digestOf(ops[k].fn)
-	fmt.Printf("GEN %d|%s|%s|%s\n", k, ops[k].name, a, b)
-	os.Exit(0)
-}
-
-func firstGen(c *mon.Ctx) {
-	self, err := os.Executable()
-	if err != nil {
-		c.Inconclusive("first-op: %v", err)
-		return
-	}
-	ops := sortedLazy()
-	warm := make([]string, len(ops))
-	for i := range ops {
-		digestOf(ops[i].fn)
-	}
-	for i := range ops {
-		warm[i] = digestOf(ops[i].fn)
-	}
-	type res struct {
-		out string
-		err error
-	}
-	results := make([]res, len(ops))
-	sem := make(chan struct{}, 8)
-	done := make(chan int, len(ops))
-	for k := range ops {
-		go func(k int) {
-			sem <- struct{}{}
-			out, err := exec.Command(self, "-mode=firstgenop", fmt.Sprintf("-which=%d", k)).CombinedOutput()
-			results[k] = res{string(out), err}
-			<-sem
-			done <- k
-		}(k)
-	}
-	for range ops {
-		<-done
-	}
-	for k, op := range ops {
-		if !mon.Selected(op.name) {
-			continue
-		}
-		c.Current("first operation of a process: " + op.name)
-		r := results[k]
-		if r.err != nil {
-			c.Fail("first-op/"+op.name+"/child-crashed", "child for %s died: %v; output tail: %s", op.name, r.err, tail(r.out, 600))
-			continue
-		}
-		found := false
-		for _, line := range strings.Split(r.out, "\n") {
-			if !strings.HasPrefix(line, "GEN ") {
-				continue
-			}
-			p := strings.SplitN(line[4:], "|", 4)
-			if len(p) != 4 || p[1] != op.name {
-				continue
-			}
-			found = true
-			c.Check("first-op", "first-op/"+op.name+"/first-call-of-a-fresh-process-differs-from-warm-process", p[2] == warm[k], func() string {
-				return fmt.Sprintf("%s: first call in a fresh process gives %s, the same call in a process where every other operation already ran gives %s", op.name, p[2], warm[k])
-			})
-			c.Check("first-op", "first-op/"+op.name+"/second-call-differs-from-first", p[3] == p[2], func() string {
-				return fmt.Sprintf("%s: fresh process, first call %s, second call %s (warm process: %s)", op.name, p[2], p[3], warm[k])
-			})
-			c.Check("first-op", "first-op/"+op.name+"/panics", !strings.HasPrefix(p[2], "panic") && !strings.HasPrefix(warm[k], "panic"), func() string {
-				return fmt.Sprintf("%s: fresh %s warm %s", op.name, p[2], warm[k])
-			})
-			c.Class("first-op/" + op.name)
-		}
-		if !found {
-			c.Inconclusive("first-op: child for %s printed no result: %s", op.name, tail(r.out, 300))
-		}
-	}
-	c.AddExtra("first_operation_children", int64(len(ops)))
-}
+func firstGen(c *mon.Ctx, only func(name string) bool) { firstop.Parent(c, only, "firstgenop") }
